@@ -301,6 +301,29 @@ func main() {
 			c.Signature = hex.EncodeToString(s[:n])
 			add(c)
 		}
+		// boundary values of r and s (the range checks of the verifier)
+		{
+			n := elliptic.P384().Params().N
+			one := big.NewInt(1)
+			var sc [][]byte
+			for _, v := range []*big.Int{big.NewInt(0), one, new(big.Int).Sub(n, one), n, new(big.Int).Add(n, one), new(big.Int).Sub(new(big.Int).Lsh(one, 384), one)} {
+				sc = append(sc, v.FillBytes(make([]byte, 48)))
+			}
+			sc = append(sc, h.req.Signature[:48], h.req.Signature[48:])
+			// n - s*: the other valid s for the same r
+			ns := new(big.Int).Sub(n, new(big.Int).SetBytes(h.req.Signature[48:]))
+			sc = append(sc, ns.FillBytes(make([]byte, 48)))
+			for i, rr := range sc {
+				for j, ss := range sc {
+					if i == 6 && j == 7 {
+						continue // the honest signature itself
+					}
+					c := mk(h, tag+"signature-boundary-values")
+					c.Signature = hex.EncodeToString(append(append([]byte{}, rr...), ss...))
+					add(c)
+				}
+			}
+		}
 		// encrypted request lengths: empty, 1, truncated by one, extended by one
 		for _, e := range [][]byte{{}, h.req.EncryptedTokenRequest[:1], h.req.EncryptedTokenRequest[:len(h.req.EncryptedTokenRequest)-1], append(append([]byte{}, h.req.EncryptedTokenRequest...), 0)} {
 			c := mk(h, tag+"encrypted-length")
